@@ -43,7 +43,60 @@ var (
 	c08SenDocs [][]byte
 	c08Once    bool
 	c08Keeper  *alt.Recomposer
+	c08Typed   *alt.Recomposer
+
+	c08StructExprs []jp.Expr
 )
+
+// typedTarget is recomposed from sources that hold typed maps and slices (not the map[string]any / []any a
+// parser or Decompose produces).
+type typedTarget struct {
+	Labels map[string]string
+	Limits map[string]int
+	Nested map[string]map[string]int
+	Names  []string
+	Nums   []int
+	In     zInner
+	M      map[string]zInner
+}
+
+func typedSource(a, b int) map[string]any {
+	labels := map[string]string{}
+	limits := map[string]int{}
+	for i := 0; i <= a%5; i++ {
+		labels[fmt.Sprintf("l%d-%d", a, i)] = fmt.Sprintf("v%d", b+i)
+		limits[fmt.Sprintf("m%d-%d", b, i)] = a*100 + i
+	}
+	names := make([]string, 1+b%4)
+	nums := make([]int, 1+a%3)
+	for i := range names {
+		names[i] = fmt.Sprintf("n%d.%d", a, i)
+	}
+	for i := range nums {
+		nums[i] = b*10 + i
+	}
+	return map[string]any{
+		"Labels": labels, "Limits": limits, "Names": names, "Nums": nums,
+		"Nested": map[string]map[string]int{"x": {"a": a}, "y": {"b": b, "c": a + b}},
+		"In":     map[string]any{"S": "s", "N": a},
+		"M":      map[string]map[string]any{"k": {"S": "t", "N": b}, "j": {"N": a}},
+	}
+}
+
+func structData(a, b int) *zOuter {
+	in := zInner{S: []string{"", "s", "x y"}[a%3], N: b % 3, F: []float64{0, 1.5, 2.5}[b%3]}
+	o := &zOuter{A: a % 4, In: in, B: b%2 == 0, Tg: []string{"", "t"}[a%2]}
+	for i := 0; i < 1+a%3; i++ {
+		o.L = append(o.L, zInner{S: fmt.Sprintf("l%d", i), N: i + b%2, F: float64(i)})
+	}
+	if a%2 == 0 {
+		o.Ptr = &zInner{S: "p", N: a, F: 1.5}
+	}
+	if b%3 == 0 {
+		o.Any = map[string]any{"k": zInner{S: "any", N: 1}}
+	}
+	return o
+}
 
 type keeper struct {
 	N     int
@@ -99,6 +152,12 @@ func c08Shared() {
 		c08Scripts = append(c08Scripts, eq.Script())
 		c08Exprs = append(c08Exprs, jp.R().C("c").C("e").Filter(eq))
 	}
+	c08StructExprs = c08StructExprs[:0:0]
+	for _, s := range []string{"$.In.S", "$.L[*].N", "$.tg", "$..N", "$['A','B']", "$.Ptr.F", "$.L[?(@.N > 0)].S", "$.Any.k.S", "$.*", "$.L[-1]", "$.In['S','F']", "$..[?(@.F > 1)]"} {
+		c08StructExprs = append(c08StructExprs, jp.MustParseString(s))
+	}
+	c08Typed = alt.MustNewRecomposer("", nil)
+	_ = c08Typed.RegisterComposer(&typedTarget{}, nil)
 	// a recomposer with a composer function that keeps the map it is handed (as user code may)
 	c08Keeper = alt.MustNewRecomposer("", map[any]alt.RecomposeFunc{&keeper{}: func(m map[string]any) (any, error) {
 		k := &keeper{}
@@ -133,6 +192,9 @@ var c08Menu = []string{
 	// aborted calls: the error paths run concurrently with everybody else's calls
 	"oj.Marshal(unencodable)", "oj.Marshal(failing Marshaler)", "oj.JSON(panicking Simplifier)", "oj.Write(failing writer)", "sen.Write(failing writer)",
 	"sen.String(panicking Simplifier)", "oj.Load(reader error)", "oj.Parse(panicking callback)", "oj.Tokenize(panicking handler)", "sen.Parse(panicking callback)", "oj.Marshal(failing TextMarshaler)", "sen.ParseReader(reader error)", "oj.Parse(callback)", "sen.Parse(callback)", "oj.Parse(empty)", "oj.JSON(big)", "sen.String(big)", "oj.Marshal(big)", "oj.Unmarshal(invalid)", "sen.Unmarshal(invalid)", "oj.Parse(ints)", "alt.Generify(struct)", "alt.GenAlter(struct)", "alt.Alter(struct)", "sen.Unmarshal(keeper)", "oj.Unmarshal(keeper)", "oj.Write(pooled, failing writer)", "sen.Write(pooled, failing writer)",
+	// shared paths over the caller's own structs; recomposing from typed (not parsed) sources
+	"jp.Get(struct)", "jp.First(struct)", "jp.Has(struct)", "jp.Set(struct)", "jp.Walk(struct)", "jp.Locate(struct)", "jp.Modify(struct)",
+	"alt.Recompose(typed maps)", "alt.Recompose(gen)", "Recomposer.Recompose(typed maps)", "alt.Recompose(slices)",
 }
 
 type failingMarshaler struct{ N int }
@@ -222,7 +284,7 @@ func drawOp08(t *rapid.T, th *theme08) *op08 {
 	switch {
 	case o.Fn == "oj.Marshal(unencodable)":
 		o.Val = make(chan int)
-	case strings.Contains(o.Fn, "failing") || strings.Contains(o.Fn, "panicking") || strings.Contains(o.Fn, "reader error") || strings.Contains(o.Fn, "callback") || strings.Contains(o.Fn, "empty") || strings.Contains(o.Fn, "big") || strings.Contains(o.Fn, "invalid") || strings.Contains(o.Fn, "ints") || o.Fn == "alt.GenAlter(struct)" || o.Fn == "alt.Alter(struct)" || strings.Contains(o.Fn, "keeper"):
+	case strings.Contains(o.Fn, "failing") || strings.Contains(o.Fn, "panicking") || strings.Contains(o.Fn, "reader error") || strings.Contains(o.Fn, "callback") || strings.Contains(o.Fn, "empty") || strings.Contains(o.Fn, "big") || strings.Contains(o.Fn, "invalid") || strings.Contains(o.Fn, "ints") || o.Fn == "alt.GenAlter(struct)" || o.Fn == "alt.Alter(struct)" || strings.Contains(o.Fn, "keeper") || strings.HasSuffix(o.Fn, "(struct)") && strings.HasPrefix(o.Fn, "jp.") || strings.HasPrefix(o.Fn, "alt.Recompose(") || strings.HasPrefix(o.Fn, "Recomposer."):
 	case strings.HasPrefix(o.Fn, "oj.JSON"), strings.HasPrefix(o.Fn, "oj.Marshal"), strings.HasPrefix(o.Fn, "oj.Write"), strings.HasPrefix(o.Fn, "sen.String"), o.Fn == "sen.Bytes", o.Fn == "sen.Write", strings.HasPrefix(o.Fn, "pretty."), o.Fn == "alt.Decompose", o.Fn == "alt.Generify(struct)":
 		// (pretty.WriteJSON included)
 		o.Val, o.Desc = drawVal08(t)
@@ -510,6 +572,52 @@ func (o *op08) exec() (r ret08) {
 		err := oj.Unmarshal([]byte(fmt.Sprintf(`{"n":%d,"props":{"owner":%d,"seq":%d,"deep":{"a":[1,2]}}}`, o.A, o.A, o.B)), &k, c08Keeper)
 		r.canon = fmt.Sprint(err != nil, k.N) + ref.Exact(k.Props)
 		r.retained = []any{k.Props}
+	case "jp.Get(struct)":
+		r.canon = goSorted(c08StructExprs[o.B%len(c08StructExprs)].Get(structData(o.A, o.B)))
+	case "jp.First(struct)":
+		r.canon = goSorted([]any{c08StructExprs[o.B%len(c08StructExprs)].First(structData(o.A, o.B))})
+	case "jp.Has(struct)":
+		r.canon = fmt.Sprint(c08StructExprs[o.B%len(c08StructExprs)].Has(structData(o.A, o.B)))
+	case "jp.Set(struct)":
+		d := structData(o.A, o.B)
+		err := c08StructExprs[o.B%6].Set(d, "new")
+		r.canon = fmt.Sprintf("%v %s", err != nil, derefAll(reflect.ValueOf(d)))
+	case "jp.Walk(struct)":
+		var ss []string
+		c08StructExprs[o.B%len(c08StructExprs)].Walk(structData(o.A, o.B), func(p jp.Expr, nodes []any) { ss = append(ss, p.String()) })
+		sort.Strings(ss)
+		r.canon = strings.Join(ss, ";")
+	case "jp.Locate(struct)":
+		locs := c08StructExprs[o.B%len(c08StructExprs)].Locate(structData(o.A, o.B), 0)
+		ss := make([]string, len(locs))
+		for i, l := range locs {
+			ss[i] = l.String()
+		}
+		sort.Strings(ss)
+		r.canon = strings.Join(ss, ";")
+	case "jp.Modify(struct)":
+		d := structData(o.A, o.B)
+		_, err := c08StructExprs[o.B%len(c08StructExprs)].Modify(d, func(e any) (any, bool) { return e, false })
+		r.canon = fmt.Sprintf("%v %s", err != nil, derefAll(reflect.ValueOf(d)))
+	case "alt.Recompose(typed maps)":
+		var tt typedTarget
+		_, err := alt.Recompose(typedSource(o.A, o.B), &tt)
+		r.canon = fmt.Sprintf("%v %s", err != nil, derefAll(reflect.ValueOf(tt)))
+	case "Recomposer.Recompose(typed maps)":
+		var tt typedTarget
+		_, err := c08Typed.Recompose(typedSource(o.A, o.B), &tt)
+		r.canon = fmt.Sprintf("%v %s", err != nil, derefAll(reflect.ValueOf(tt)))
+	case "alt.Recompose(gen)":
+		var tt typedTarget
+		src := gen.Object{"Labels": gen.Object{fmt.Sprintf("g%d", o.A): gen.String(fmt.Sprintf("v%d", o.B)), "z": gen.String("z")}, "Nums": gen.Array{gen.Int(int64(o.A)), gen.Int(int64(o.B))},
+			"In": gen.Object{"S": gen.String("s"), "N": gen.Int(int64(o.B))}, "Limits": gen.Object{"a": gen.Int(int64(o.A)), fmt.Sprintf("b%d", o.B): gen.Int(2)}}
+		_, err := alt.Recompose(src, &tt)
+		r.canon = fmt.Sprintf("%v %s", err != nil, derefAll(reflect.ValueOf(tt)))
+	case "alt.Recompose(slices)":
+		var out []map[string]int
+		src := []any{map[string]int{"a": o.A, "b": o.B}, map[string]any{"c": o.A + o.B}, map[string]int{fmt.Sprintf("k%d", o.B): 1}}
+		_, err := alt.Recompose(src, &out)
+		r.canon = fmt.Sprintf("%v %v", err != nil, derefAll(reflect.ValueOf(out)))
 	case "alt.Generify(struct)":
 		g := alt.Generify(o.Val, opts(o.O))
 		r.canon = ref.Exact(nodeAny(g))
@@ -596,6 +704,16 @@ func exactSorted(vals []any) string {
 
 func derefAllAny(v any) string { return fmt.Sprintf("%+v", v) }
 
+// goSorted: canonical text of arbitrary Go values (structs, typed maps), order independent.
+func goSorted(vals []any) string {
+	ss := make([]string, len(vals))
+	for i, v := range vals {
+		ss[i] = fmt.Sprintf("%T:%s", v, derefAll(reflect.ValueOf(&v).Elem()))
+	}
+	sort.Strings(ss)
+	return strings.Join(ss, ";")
+}
+
 // warmUp registers the outer zoo types used by the workload with the default recomposer - by explicit
 // registration only, no warm-up run: registering a type is documented to cover the struct types of its
 // members, which is the precondition for sharing the recomposer between goroutines.
@@ -604,6 +722,7 @@ func warmUp() {
 	resetDefaultRecomposer("")
 	_ = alt.DefaultRecomposer.RegisterComposer(&za.Node{}, nil)
 	_ = alt.DefaultRecomposer.RegisterComposer(&za.EmbedsDeep{}, nil)
+	_ = alt.DefaultRecomposer.RegisterComposer(&typedTarget{}, nil)
 }
 
 // ---- race detector as in-run monitor
